@@ -11,6 +11,7 @@ CONSTANTS
   ModPorts = {}
   ModOps <- NoOps
   BadMods = {}
+  BadOps = {}
   FragModes = {}
   DropCount <- Both
   MissLen = 128
